@@ -401,6 +401,16 @@ func MutateValue(v string, choose Chooser) (string, string) {
 			return m, d
 		}
 	}
+	// a JSON string literal (a compact JWT posted as application/json): mostly mutate what is inside the quotes
+	if strings.HasPrefix(t, "\"") && strings.HasSuffix(t, "\"") && len(t) > 2 {
+		var inner string
+		if json.Unmarshal([]byte(t), &inner) == nil && inner != "" && choose("json-string", 4) != 3 {
+			if m, d := MutateValue(inner, choose); d != "" {
+				b, _ := json.Marshal(m)
+				return string(b), "json-string: " + d
+			}
+		}
+	}
 	variants := []struct{ name, v string }{
 		{"empty", ""}, {"long", strings.Repeat("A", 70000)}, {"nul", v + "\x00"}, {"truncated", v[:len(v)/2]},
 		{"json-null", "null"}, {"json-array", "[]"}, {"json-object", "{}"}, {"number", "-1"}, {"doubled", v + v}, {"space", " " + v + " "},
